@@ -31,6 +31,7 @@ from pyvc.interp import Config, Ctx, Interp, SymRaise, explore
 
 TL = "mygrad.tensor_manip.transpose_like.ops"
 AS = "mygrad.tensor_manip.array_shape.ops"
+TJ = "mygrad.tensor_manip.tensor_joining.ops"
 R_MAX = {"quick": 3, "thorough": 4}
 
 
@@ -46,6 +47,15 @@ def _cfg(holder):
             return getattr(holder["dom"].np, name)
 
     cfg.module_overrides["numpy"] = _NpProxy()
+
+    def accumulate(it):
+        out, acc = [], None
+        for v in it:
+            acc = v if acc is None else acc + v
+            out.append(acc)
+        return out
+
+    cfg.global_overrides[("itertools", "accumulate")] = accumulate
     return cfg
 
 
@@ -251,6 +261,105 @@ def broadcast_harness(rank, lead):
     return h
 
 
+def join_harness(cls, rank, npieces, axis, index):
+    """Concatenate / Stack: P operands, each element of the result comes from exactly one element of exactly one operand.
+    For operand `index` and a skolem in-bounds index i of it, with j = the place NumPy's definition puts x_p[i]:
+        forward:  out[j] == x_p[i]  and the result has NumPy's shape;     VJP:  backward_var(g, p)[i] == g[j],  same shape as x_p."""
+
+    def h(ctx: Ctx):
+        dom, interp = _setup(ctx)
+        flatmode = axis is None
+        pieces, ts, dimsl = [], [], []
+        common = _dims(ctx, rank)
+        for p in range(npieces):
+            if flatmode:
+                dims = [z3.Int(f"d{p}_{k}") for k in range(rank)]
+                for d in dims:
+                    ctx.assume(d >= 0)
+                Xf = z3.Function(f"Xf{p}", z3.IntSort(), z3.RealSort())
+                x = XArr(dom, dims, flat=(lambda Xf: lambda k: Xf(k))(Xf), origin=f"input:{p}")
+            else:
+                dims = list(common)
+                if cls == "Concatenate":
+                    e = z3.Int(f"e{p}")
+                    ctx.assume(e >= 0)
+                    dims[axis % rank] = e
+                X = z3.Function(f"X{p}", *([z3.IntSort()] * rank + [z3.RealSort()])) if rank else None
+                x0 = z3.Real(f"x{p}")
+                x = XArr(dom, dims, elem=(lambda X: lambda i: X(*i))(X) if rank else (lambda x0: lambda i: x0)(x0), origin=f"input:{p}")
+            pieces.append(x)
+            dimsl.append(dims)
+            ts.append(XTensor(x, f"x{p}"))
+        Op = interp.global_lookup(interp.module(TJ), cls)
+        op = interp.instantiate(Op, [], {})
+        tag = f"r{rank},P={npieces},axis={axis},index={index}"
+        meta = dict(function=f"{TJ}:{cls}.backward_var", op=f"{TJ}:{cls}", rank=rank, args=repr((npieces, axis, index)), kind="join")
+        out = interp.call(interp.getattr(op, "__call__"), list(ts), {"axis": axis})
+        name = f"C02.struct.{cls}[{tag}]"
+        ok = isinstance(out, XArr)
+        ctx.oblige(f"{name}.forward_returns_array", ok, **meta)
+        if not ok:
+            return
+        variables = op.fields.get("variables")
+        ctx.oblige(f"{name}.variables", isinstance(variables, tuple) and len(variables) == npieces and all(a is b for a, b in zip(variables, ts)), **meta)
+        xp, dp = pieces[index], dimsl[index]
+        m3 = dict(meta, function=f"{TJ}:{cls}.__call__", kind="join-forward")
+        if flatmode:
+            k = z3.Int("k")
+            ctx.assume(z3.And(k >= 0, k < prod(dp)))
+            off = sum((prod(d) for d in dimsl[:index]), z3.IntVal(0))
+            total = sum((prod(d) for d in dimsl), z3.IntVal(0))
+            ctx.oblige(f"C03.struct.{cls}[{tag}].forward_shape_is_numpys", _shape_eq(out, [total]), **m3)
+            if out.flat is None or out.ndim != 1:
+                return
+            ctx.oblige(f"C03.struct.{cls}[{tag}].forward_places_piece", out.flat(off + k) == xp.flat(k), **m3)
+            Gf = z3.Function("Gf", z3.IntSort(), z3.RealSort())
+            g = XArr(dom, out.shape, flat=lambda q: Gf(q), origin="grad")
+            r = interp.call(interp.getattr(op, "backward_var"), [g, index], {})
+            ok = isinstance(r, XArr) and r.flat is not None
+            ctx.oblige(f"{name}.backward_returns_array", ok, **meta)
+            if ok:
+                ctx.oblige(f"{name}.grad_shape_is_operand_shape", _shape_eq(r, dp), **meta)
+                ctx.oblige(f"{name}.vjp", r.flat(k) == Gf(off + k), **meta)
+        else:
+            i = [z3.Int(f"i{k}") for k in range(rank)]
+            for a, n in zip(i, dp):
+                ctx.assume(z3.And(a >= 0, a < n))
+            if cls == "Concatenate":
+                ax = axis % rank
+                off = sum((d[ax] for d in dimsl[:index]), z3.IntVal(0))
+                j = list(i)
+                j[ax] = i[ax] + off
+                spec_shape = list(dp)
+                spec_shape[ax] = sum((d[ax] for d in dimsl), z3.IntVal(0))
+            else:
+                ax = axis % (rank + 1)
+                j = list(i)
+                j.insert(ax, z3.IntVal(index))
+                spec_shape = list(dp)
+                spec_shape.insert(ax, z3.IntVal(npieces))
+            ctx.oblige(f"C03.struct.{cls}[{tag}].forward_shape_is_numpys", _shape_eq(out, spec_shape), **m3)
+            if out.ndim != len(j):
+                return
+            ctx.oblige(f"C03.struct.{cls}[{tag}].forward_places_piece", out.at(j) == xp.at(i), **m3)
+            G = z3.Function("G", *([z3.IntSort()] * out.ndim + [z3.RealSort()]))
+            g = XArr(dom, out.shape, elem=lambda q: G(*q), origin="grad")
+            r = interp.call(interp.getattr(op, "backward_var"), [g, index], {})
+            if rank == 0 and not isinstance(r, XArr):
+                ctx.oblige(f"{name}.backward_returns_array", False, **meta)
+                return
+            ok = isinstance(r, XArr)
+            ctx.oblige(f"{name}.backward_returns_array", ok, **meta)
+            if ok:
+                ctx.oblige(f"{name}.grad_shape_is_operand_shape", _shape_eq(r, dp), **meta)
+                if r.ndim == rank:
+                    ctx.oblige(f"{name}.vjp", r.at(i) == G(*j), **meta)
+        for n_, (what, f) in enumerate(dom.side_conditions):
+            ctx.oblige(f"{name}.numpy_accepts[{n_}:{what}]", f, **meta)
+
+    return h
+
+
 def lemma_harness(ctx: Ctx):
     """the lemma whose instances pyvc/idxdom.py:IdxDomain.mod adds as hypotheses — proved here for all integers"""
     Q, n = z3.Int("Q"), z3.Int("n")
@@ -330,6 +439,16 @@ def harnesses(tier):
                         hs.append((f"expand_dims[r{r},({a},{b})]", flat_harness(AS, "ExpandDims", r, ((a, b),), f"r{r},axis=({a},{b})")))
         for lead in (0, 1, 2):
             hs.append((f"broadcast_to[r{r},lead{lead}]", broadcast_harness(r, lead)))
+    # joins: P pieces, every axis spelling, every operand index
+    for r in range(0, min(R, 3) + 1):
+        for P in (1, 2, 3):
+            for idx in range(P):
+                if r >= 1:
+                    for ax in range(-r, r):
+                        hs.append((f"concatenate[r{r},P{P},{ax},{idx}]", join_harness("Concatenate", r, P, ax, idx)))
+                hs.append((f"concatenate[r{r},P{P},None,{idx}]", join_harness("Concatenate", r, P, None, idx)))
+                for ax in range(-(r + 1), r + 1):
+                    hs.append((f"stack[r{r},P{P},{ax},{idx}]", join_harness("Stack", r, P, ax, idx)))
     return hs
 
 
@@ -338,6 +457,7 @@ FUNCTIONS = (
     + [f"{AS}:_PreservesOrder.backward_var", f"{AS}:_AtLeastKD.__call__"]
     + [f"{AS}:{c}.__call__" for c in ("Reshape", "Flatten", "Ravel", "Squeeze", "ExpandDims", "BroadcastTo")]
     + [f"{AS}:BroadcastTo.backward_var"]
+    + [f"{TJ}:{c}.{m}" for c in ("Concatenate", "Stack") for m in ("__call__", "backward_var")]
 )
 
 
